@@ -716,6 +716,15 @@ bool SPxLPBase<Rational>::readLPF(
                      rnames->add(name);
                   }
 
+                  // the name set ignores a name it already holds (duplicate row name, or a default name that a row was
+                  // given explicitly): generate a fresh one, otherwise names and rows are no longer aligned
+                  for(int dup = 0; rnames->num() < rset.num(); dup++)
+                  {
+                     char name[40];
+                     spxSnprintf(name, 40, "C%d_%d", rset.num(), dup);
+                     rnames->add(name);
+                  }
+
                   have_value = true;
                   val = 1;
                   sense = 0;
@@ -906,6 +915,10 @@ bool SPxLPBase<Rational>::readLPF(
    }
 
    assert(isConsistent());
+
+   // a row name that was read without a complete row behind it (the file ends inside a constraint) is dropped
+   while(rnames->num() > rset.num())
+      rnames->remove(rnames->num() - 1);
 
    addCols(cset);
    assert(isConsistent());
